@@ -137,6 +137,9 @@ type world struct {
 	leases   map[string]*lease // C07: lower bound of the lease end per task id
 	lockLeases map[string]*lease // C09: lower bound of the lease end per resource id (pid field = execution id)
 	claimed  map[string]bool   // C07: (task id, counter) pairs whose claim was acknowledged
+	respN      map[string]int  // C12: responses per request id
+	lost       map[string]bool // C12: requests in flight at a crash (their responses die with the process)
+	submitted  []string        // C12: request ids in submission order
 	stepNo     int
 	submitStep map[string]int // step at which a request was submitted
 	doneStep   map[string]int // C01: step at which a promise was first observed completed
@@ -502,7 +505,7 @@ func newWorld(path string, cfg Cfg, bg bool) (*world, error) {
 		return nil, err
 	}
 	boot.Close()
-	w := &world{cfg: cfg, bg: bg, path: path, seen: map[string]M{}, submitAt: map[string]int64{}, leases: map[string]*lease{}, lockLeases: map[string]*lease{}, claimed: map[string]bool{}, submitStep: map[string]int{}, doneStep: map[string]int{}}
+	w := &world{cfg: cfg, bg: bg, path: path, seen: map[string]M{}, submitAt: map[string]int64{}, leases: map[string]*lease{}, lockLeases: map[string]*lease{}, claimed: map[string]bool{}, submitStep: map[string]int{}, doneStep: map[string]int{}, respN: map[string]int{}, lost: map[string]bool{}}
 	w.rdb, err = sql.Open("sqlite3", path)
 	if err != nil {
 		return nil, err
@@ -779,6 +782,7 @@ func (r *runner) apply(w *world, st Step) (M, bool) {
 		if st.Op == "submit" {
 			w.submitAt[st.Tid] = r.now
 			w.submitStep[st.Tid] = w.stepNo
+			w.submitted = append(w.submitted, st.Tid)
 			if r.reqs == nil {
 				r.reqs = map[string]M{}
 			}
@@ -799,6 +803,11 @@ func (r *runner) apply(w *world, st Step) (M, bool) {
 			w.aio.now = st.T
 			w.sys.Tick(st.T)
 		case "crash":
+			for _, tid := range w.submitted {
+				if w.respN[tid] == 0 {
+					w.lost[tid] = true
+				}
+			}
 			if err := w.boot(); err != nil {
 				return M{"harness": err.Error()}, false
 			}
@@ -816,6 +825,16 @@ func (r *runner) apply(w *world, st Step) (M, bool) {
 			if monitors["C01"] {
 				if what := w.c01Observe(m); what != "" {
 					return M{"what": "property monitor failed on an implementation response", "property": "C01", "diff": what, "property_violation": true, "step": st}, false
+				}
+			}
+			if m["e"] == "respond" && monitors["C12"] {
+				tid := fmt.Sprint(m["tid"])
+				w.respN[tid]++
+				if w.respN[tid] > 1 {
+					return M{"what": "property monitor failed on an implementation response", "property": "C12", "diff": "request " + tid + " was answered twice", "property_violation": true, "step": st}, false
+				}
+				if w.submitStep[tid] == 0 {
+					return M{"what": "property monitor failed on an implementation response", "property": "C12", "diff": "a response for request " + tid + " that was never submitted", "property_violation": true, "step": st}, false
 				}
 			}
 			if m["e"] == "respond" {
@@ -1075,6 +1094,7 @@ type genOpts struct {
 	routedPct int
 	failPct   int
 	crashPct  int
+	shutdownPct int
 	steps     int
 }
 
@@ -1355,10 +1375,32 @@ func (r *runner) generate(g *gen.G, cfg Cfg, bg bool, o genOpts) ([]Step, int, M
 		case x < 99:
 			info, pred = do(Step{Op: "crash"})
 		default:
-			continue
+			if g.R.Intn(100) < o.shutdownPct {
+				info, pred = do(Step{Op: "shutdown"})
+			} else {
+				continue
+			}
 		}
 		if info != nil {
 			return steps, len(steps) - 1, info, pred
+		}
+	}
+	if monitors["C12"] {
+		// quiesce: enough rounds for every accepted request to run to its answer, then each request submitted since the
+		// last crash must have been answered exactly once
+		out := 0
+		for _, tid := range w.submitted {
+			if w.respN[tid] == 0 && !w.lost[tid] {
+				out++
+			}
+		}
+		if info, pred := settle(8*(out+5), 1000); info != nil {
+			return steps, len(steps) - 1, info, pred
+		}
+		for _, tid := range w.submitted {
+			if w.respN[tid] == 0 && !w.lost[tid] {
+				return steps, len(steps) - 1, M{"what": "property monitor failed on the implementation", "property": "C12", "diff": "request " + tid + " was never answered although the server kept running (" + fmt.Sprint(8*(out+5)) + " further rounds)", "property_violation": true}, false
+			}
 		}
 	}
 	return steps, -1, nil, false
@@ -1423,6 +1465,7 @@ func main() {
 	routed := flag.Int("routed", 30, "percentage of created promises carrying a routing tag")
 	failPct := flag.Int("fail", 10, "percentage of submissions failed before/after processing")
 	crashPct := flag.Int("crash", 1, "percentage of steps that are a crash/restart")
+	shutdownPct := flag.Int("shutdown", 0, "chance (percent of the 1% idle steps) of a shutdown request")
 	replay := flag.String("replay", "", "replay a recorded divergence file")
 	corpus := flag.String("corpus", "", "directory of recorded scripts to run first")
 	out := flag.String("out", "", "summary JSON path")
@@ -1537,7 +1580,7 @@ func main() {
 			g.Reseed(*seed*1000003 + int64(s))
 			divScript = s
 			cfg := drawCfg(g, *small)
-			steps, i, info, pred := r.generate(g, cfg, *bgFlag, genOpts{kinds: ks, routedPct: *routed, failPct: *failPct, crashPct: *crashPct, steps: *nsteps})
+			steps, i, info, pred := r.generate(g, cfg, *bgFlag, genOpts{kinds: ks, routedPct: *routed, failPct: *failPct, crashPct: *crashPct, shutdownPct: *shutdownPct, steps: *nsteps})
 			nstepsTotal += len(steps)
 			if s == 0 && len(steps) > 6 {
 				samples = []any{M{"cfg": cfg, "steps": steps[:6]}}
@@ -1563,7 +1606,7 @@ func main() {
 			gen.Focus(s%2 == 1)
 			focusClock = s%2 == 1
 			cfg := drawCfg(hg, *small)
-			steps, i, info, pred := r.generate(hg, cfg, *bgFlag, genOpts{kinds: ks, routedPct: *routed, failPct: *failPct, crashPct: *crashPct, steps: *nsteps})
+			steps, i, info, pred := r.generate(hg, cfg, *bgFlag, genOpts{kinds: ks, routedPct: *routed, failPct: *failPct, crashPct: *crashPct, shutdownPct: *shutdownPct, steps: *nsteps})
 			summary["hunt_scripts"] = s + 1
 			if i >= 0 && info["property_violation"] == true {
 				corr := summary["divergence"]
